@@ -463,7 +463,7 @@ impl Ctx {
                 let strat = &strat;
                 let check = &check;
                 let done = &done;
-                sc.spawn(move || {
+                std::thread::Builder::new().stack_size(256 << 20).spawn_scoped(sc, move || {
                     let cfg = Config {
                         cases: per,
                         failure_persistence: None,
@@ -538,7 +538,7 @@ impl Ctx {
                     let local = local.into_inner();
                     done.fetch_add(local.cases, Ordering::Relaxed);
                     self.absorb(local);
-                });
+                }).expect("spawn shard");
             }
         });
         self.sub_done(name, done.load(Ordering::Relaxed), false, t0.elapsed().as_secs_f64());
@@ -563,7 +563,7 @@ impl Ctx {
         const CHUNK: u64 = 256;
         std::thread::scope(|sc| {
             for _ in 0..shards {
-                sc.spawn(|| {
+                std::thread::Builder::new().stack_size(256 << 20).spawn_scoped(sc, || {
                     let mut local = Stats::default();
                     loop {
                         let lo = next.fetch_add(CHUNK, Ordering::Relaxed);
@@ -597,7 +597,7 @@ impl Ctx {
                         }
                     }
                     self.absorb(local);
-                });
+                }).expect("spawn shard");
             }
         });
         self.sub_done(name, done.load(Ordering::Relaxed), exhaustive, t0.elapsed().as_secs_f64());
